@@ -36,12 +36,12 @@ func init() {
 }
 
 type c04Setter struct {
-	Kind  string    `json:"kind"` // code diag matched controls addattr
-	Code  int       `json:"code,omitempty"`
-	Str   []byte    `json:"str,omitempty"`
-	Ctls  []CtlSpec `json:"ctls,omitempty"`
-	Name  []byte    `json:"name,omitempty"`
-	Vals  [][]byte  `json:"vals,omitempty"`
+	Kind string    `json:"kind"` // code diag matched controls addattr
+	Code int       `json:"code,omitempty"`
+	Str  []byte    `json:"str,omitempty"`
+	Ctls []CtlSpec `json:"ctls,omitempty"`
+	Name []byte    `json:"name,omitempty"`
+	Vals [][]byte  `json:"vals,omitempty"`
 }
 
 type c04Script struct {
